@@ -18,6 +18,7 @@ import NessaiVerif.Driver.Term
 import NessaiVerif.Driver.Tables
 import NessaiVerif.Driver.NpPrim
 import NessaiVerif.Driver.Batch
+import NessaiVerif.Driver.Results
 /- Line-protocol dispatcher: first token selects the area. Mathlib-free.
    Every area has its own file Driver/<Area>.lean exporting `handle : List String → String`. -/
 namespace NessaiVerif.Driver
@@ -43,6 +44,7 @@ def dispatch (line : String) : String :=
   | "tab" :: rest => Tables.handle rest
   | "np" :: rest => NpPrim.handle rest
   | "bat" :: rest => Batch.handle rest
+  | "res" :: rest => Results.handle rest
   | _ => "bad-op"
 
 end NessaiVerif.Driver
